@@ -3,24 +3,25 @@
 # scratch worktree /tmp/seed/<Cxx> (patch applied there) and the clean /repo, run the property's check
 # on it, and keep it under /verif/seeded/<tag>.
 P=$1; TAG=${2:-$P}
-W=/tmp/seed/$P; O=/tmp/seed/$P.out
+SD=${SEEDDIR:-/tmp/seed}
+W=$SD/$P; O=$SD/$P.out
 [ -f $O/patch.diff ] || { echo "no patch in $O"; exit 2; }
 cd $W || exit 2
 # the worktree must contain exactly the patch
-git -C $W diff > /tmp/seed/$P.current.diff
-if ! diff -q <(grep '^[-+]' $O/patch.diff | grep -v '^[-+][-+]') <(grep '^[-+]' /tmp/seed/$P.current.diff | grep -v '^[-+][-+]') >/dev/null; then
+git -C $W diff > $SD/$P.current.diff
+if ! diff -q <(grep '^[-+]' $O/patch.diff | grep -v '^[-+][-+]') <(grep '^[-+]' $SD/$P.current.diff | grep -v '^[-+][-+]') >/dev/null; then
   echo "worktree differs from patch.diff: resetting worktree to patch"; git -C $W checkout -- . ; git -C $W apply $O/patch.diff || { echo "patch does not apply"; exit 2; }
 fi
 [ -d $W/_build ] || cmake -G Ninja -S $W -B $W/_build -DCMAKE_BUILD_TYPE=RelWithDebInfo >/dev/null
-cmake --build $W/_build -j16 > /tmp/seed/$P.build.log 2>&1 || { tail -5 /tmp/seed/$P.build.log; echo "BUILD FAILED"; exit 2; }
+cmake --build $W/_build -j16 > $SD/$P.build.log 2>&1 || { tail -5 $SD/$P.build.log; echo "BUILD FAILED"; exit 2; }
 echo "--- test suite with the change"
-ctest --test-dir $W/_build -j8 --timeout 900 --output-junit /tmp/seed/$P.junit.xml > /tmp/seed/$P.ctest.log 2>&1 || \
-ctest --test-dir $W/_build -j1 --timeout 900 --output-junit /tmp/seed/$P.junit.xml > /tmp/seed/$P.ctest.log 2>&1
-python3 - $P <<'PY'
+ctest --test-dir $W/_build -j8 --timeout 900 --output-junit $SD/$P.junit.xml > $SD/$P.ctest.log 2>&1 || \
+ctest --test-dir $W/_build -j1 --timeout 900 --output-junit $SD/$P.junit.xml > $SD/$P.ctest.log 2>&1
+python3 - $P $SD/$P.junit.xml <<'PY'
 import json, sys, xml.etree.ElementTree as ET
 stable = {s.split('::')[0] for s in json.load(open('/root/.vp/BASELINE.json'))['stable_pass']}
 res = {}
-for tc in ET.parse('/tmp/seed/%s.junit.xml' % sys.argv[1]).getroot().iter('testcase'):
+for tc in ET.parse(sys.argv[2]).getroot().iter('testcase'):
     res[tc.get('name')] = tc.get('status') == 'run' and tc.find('failure') is None
 bad = sorted(n for n in stable if not res.get(n, False))
 print("stable tests passing with the change: %d/%d" % (len(stable)-len(bad), len(stable)), bad[:5])
@@ -28,14 +29,14 @@ sys.exit(1 if bad else 0)
 PY
 SUITE=$?
 echo "--- demo on the changed tree (expect non-zero)"
-bash $O/run_demo.sh $W > /tmp/seed/$P.demo_changed.log 2>&1; D1=$?; tail -3 /tmp/seed/$P.demo_changed.log
+bash $O/run_demo.sh $W > $SD/$P.demo_changed.log 2>&1; D1=$?; tail -3 $SD/$P.demo_changed.log
 echo "--- demo on clean /repo (expect 0)"
-bash $O/run_demo.sh /repo > /tmp/seed/$P.demo_clean.log 2>&1; D0=$?; tail -2 /tmp/seed/$P.demo_clean.log
+bash $O/run_demo.sh /repo > $SD/$P.demo_clean.log 2>&1; D0=$?; tail -2 $SD/$P.demo_clean.log
 echo "suite_ok=$((1-SUITE)) demo_changed_rc=$D1 demo_clean_rc=$D0"
 echo "--- ./check $P on the changed tree"
-cd /verif && ./check $P --root $W > /tmp/seed/$P.check.log 2>&1; C=$?
-grep -E "VIOLATION|ANALYSIS-BROKEN|KNOWN" /tmp/seed/$P.check.log | cut -c1-200 | head -5
-grep -B1 "^VIOLATION" /tmp/seed/$P.check.log | grep -v "^VIOLATION\|^--" | cut -c1-260 | head -4
+cd /verif && ./check $P --root $W > $SD/$P.check.log 2>&1; C=$?
+grep -E "VIOLATION|ANALYSIS-BROKEN|KNOWN" $SD/$P.check.log | cut -c1-200 | head -5
+grep -B1 "^VIOLATION" $SD/$P.check.log | grep -v "^VIOLATION\|^--" | cut -c1-260 | head -4
 echo "check_rc=$C"
 if [ $SUITE -eq 0 ] && [ $D1 -ne 0 ] && [ $D0 -eq 0 ]; then
   mkdir -p /verif/seeded/$TAG && cp -r $O/* /verif/seeded/$TAG/ && rm -rf /verif/seeded/$TAG/_build /verif/seeded/$TAG/*.o 2>/dev/null
